@@ -23,3 +23,11 @@ CLAIMED["C06"] = (
  "reachability-discipline lint over the type-checked AST with slots filled from wat2wasm (root/edge completeness, index-space role agreement, removal filter)",
  "Decides that the dead-function pass marks from all three root kinds, follows every function-reference field and every nested instruction list, never keys the function map with a field of another index space, removes only unmarked functions, and that the roots survive printing. Does not decide behavioural equivalence of the stripped module beyond these necessary conditions.",
  AST_BASE)
+CLAIMED["C02"] = (
+ "table agreement lint over instruction-template dispatchers (stack effects vs. embedded WebAssembly signatures, sibling cross-check of five translators, x86 mnemonic/width/operand-order tables over the emitted template strings)",
+ "Decides, exhaustively over the instruction tokens, that wat2x64 has a template per instruction, that every fixed-signature template's virtual-stack effect equals the WebAssembly signature (and agrees with the four sibling translators), and that the template text uses the x86 operation, signedness, access width, operand order and result register the mnemonic requires. Does not decide the full semantics of the assembly, control flow, calls, runtime helpers, assembler or linker.",
+ AST_BASE)
+CLAIMED["C03"] = (
+ "table agreement lint over the wat2c template dispatcher (stack effects, union-view typing of every R<n>.<view>, C operator/libm/helper, signedness casts, shift masks, load/store widths, conversion cast chains)",
+ "Decides, exhaustively over the instruction tokens, that each C template is typed consistently with the slots it pops/pushes and computes the mnemonic's operation with the mnemonic's signedness, width and operand order. Does not decide C trap behaviour (division, out-of-range conversions), NaN details, memory bounds, control flow or calls.",
+ AST_BASE)
